@@ -124,11 +124,11 @@ theorem sn_roundtrip (sn : Nat) (enc : Option Encoding) (hs : sn ≤ 127) (rest 
       · rw [List.cons_append, List.cons_append, List.nil_append,
           decodeSn_two _ _ _ .undefined (by omega) (by rw [← e3]; congr 1; omega)]
         simp [normEnc, henc]; omega
-    · refine ⟨[128 * 0 + sn % 32], ?_, by simp [h31, henc], ?_⟩
+    · refine ⟨[128 * 0 + sn % 32], ?_, by simp [h31], ?_⟩
       · simp [h31]
       · rw [List.cons_append, List.nil_append, decodeSn_one _ _ (by omega)]
         simp [normEnc, henc]; omega
-  · refine ⟨[128 * 1 + sn % 32, 32 * (sn / 32) + Encoding.ucs2le.val], ?_, by simp [henc], ?_⟩
+  · refine ⟨[128 * 1 + sn % 32, 32 * (sn / 32) + Encoding.ucs2le.val], ?_, by simp, ?_⟩
     · simp; omega
     · rw [List.cons_append, List.cons_append, List.nil_append,
         decodeSn_two _ _ _ .ucs2le (by omega) (by rw [← e2]; congr 1; omega)]
